@@ -58,6 +58,12 @@ def queries(tier, seed=0):
                     if d.get('name') and d['name'].startswith('s'):
                         d['name'] = 's0'
                 qs.append(d)
+    # goal test after the (supposedly pure) hop / score-bound queries, two sensitive hosts sharing a subnet
+    sh21 = Shape([2, 1], 1, 1, 1).to_json()
+    for sens in ([[1, 0], [1, 1]], [[1, 0], [1, 1], [2, 0]]):
+        for kind, nm, t in (('exploit', 's0', [1, 1]), ('privesc', 'p0', [1, 0])):
+            qs.append(dict(shape=sh21, kind=kind, target=t, name=nm, os=None, level='gen', sens=sens,
+                           goal_query=True, host_fw=False, bound_first=True))
     # step counter / limit
     small = Shape([1, 1], 2, 2, 1).to_json()
     shapes = [small] if tier == 'quick' else [small, Shape([2, 1], 2, 2, 1).to_json()]
